@@ -70,15 +70,24 @@ theorem applyBin_div_shape (l r : Arg N) (hl : ∀ m, blank0 l ≠ .err m) (hr :
   generalize blank0 r = r' at hr ⊢
   cases l' <;> cases r' <;> simp_all [throw, throwThe, MonadExceptOf.throw]
 
+/-- what calcPow does with the two coerced numbers -/
+def powRes (a b : N) : Except MErr (Arg N) :=
+  if isZero a && isZero b then .error (.msg (.lit formulaErrorNUM))
+  else if isZero a && lt b zero then .error (.msg (.lit formulaErrorDIV))
+  else .ok (mkNum (pow a b))
+
 theorem applyBin_pow_shape (l r : Arg N) (hl : ∀ m, blank0 l ≠ .err m) (hr : ∀ m, blank0 r ≠ .err m) :
     applyBin .pow l r =
       (do let a ← liftE (toNumber (blank0 l))
           let b ← liftE (toNumber (blank0 r))
-          pure (mkNum (pow a b))) := by
+          powRes a b) := by
   unfold applyBin
   generalize blank0 l = l' at hl ⊢
   generalize blank0 r = r' at hr ⊢
   cases l' <;> cases r' <;> simp_all
+  all_goals (generalize liftE (toNumber (_ : Arg N)) = x; generalize liftE (toNumber (_ : Arg N)) = y; cases x <;> cases y <;> simp [powRes])
+  all_goals (try (split <;> simp [throw, throwThe, MonadExceptOf.throw]))
+  all_goals (try (split <;> simp_all [throw, throwThe, MonadExceptOf.throw]))
 
 theorem applyBin_concat_shape (l r : Arg N) (hl : ∀ m, l ≠ .err m) (hr : ∀ m, r ≠ .err m) :
     applyBin .concat l r = .ok (.str (value l ++ value r)) := by
